@@ -199,6 +199,11 @@ def main():
         if self_test and self_test.get("missed"):
             # a weak contract is a defect of the machinery, not of the repository: report, do not alarm
             print(f"SELF-TEST: {len(self_test['missed'])} semantic edits not caught: {self_test['missed']}")
+        neutral = ST.run_neutral(prop, cfg, HERE, OUT, args.repo)
+        if self_test is not None and neutral is not None:
+            self_test["neutral_edits"] = neutral
+            if neutral["false_alarms"]:
+                print(f"SELF-TEST: semantics-preserving edits reported as violations (false alarms of the machinery): {neutral['false_alarms']}")
 
     wall = time.time() - t0
     for r in results:
